@@ -30,7 +30,12 @@ def enc(v):
         e = -(den.bit_length() - 1)
         return "R" + ("-%x" % -num if num < 0 else "%x" % num) + "p" + str(e)
     if isinstance(v, str):
-        return "S" + v.encode("utf-8", "surrogateescape").hex()
+        try:
+            return "S" + v.encode("utf-8", "surrogateescape").hex()
+        except UnicodeEncodeError:
+            # an unpaired surrogate that is not an escaped byte (text only a JSON escape can carry): its generalised UTF-8 octets,
+            # so that the model sees a string different from every well-formed one
+            return "S" + b"".join((bytes([ord(c) - 0xDC00]) if 0xDC80 <= ord(c) <= 0xDCFF else c.encode("utf-8", "surrogatepass")) for c in v).hex()
     if isinstance(v, (bytes, bytearray)):
         return "S" + bytes(v).hex()
     if isinstance(v, (list, tuple)):
